@@ -9,11 +9,11 @@ VERIF = os.path.dirname(HERE)
 sys.path.insert(0, VERIF)
 
 LEVEL_TEXT = {
-    "C01": "Forest invariant evaluated after every executed call; every hook fault position (once / twice / persistent, plus a restricted re-entrant hook) is enumerated for every forest over <=3 nodes and (thorough) <=4 nodes, in both assertion modes, plus random histories and the repository's own tests under an in-situ wrapper. Held on the executions listed in the evidence, not a proof.",
+    "C01": "Forest invariant evaluated after every executed call; every hook fault position (once / twice / persistent, vetoes of five exception classes, plus a restricted re-entrant hook; hooks read derived attributes of their node) is enumerated for every forest over <=3 nodes and (thorough) <=4 nodes, in both assertion modes, plus random histories and the repository's own tests under an in-situ wrapper. Held on the executions listed in the evidence, not a proof.",
     "C02": "Outcome class and complete post-state of every fault-free call compared with an executable sequential model, exhaustively for all forests over <=4 nodes (thorough: 5) and all call arguments incl. constructors; bounded exhaustive + random histories, no proof.",
     "C03": "Every raising call (invalid request or pre-hook veto at every enumerated hook position) has its complete pre/post snapshot compared; recorded known mechanisms are recognised only by exact predicted defective state (as-implemented simulator), everything else is a violation.",
-    "C04": "Every navigation attribute / util helper of every node compared by identity with reference definitions, on all ordered trees up to 7 (thorough 9) nodes, random and deep shapes, and after every step of mutation histories on the same objects.",
-    "C05": "Yielded sequences of the five iterators compared with independently computed orders for every start node of all ordered trees up to 8 (thorough 10) nodes, random/deep shapes and mutation histories.",
+    "C04": "Every navigation attribute / util helper of every node compared by identity with reference definitions, on all ordered trees up to 7 (thorough 10) nodes, random and deep shapes, eight node families (value-equality, falsy, mapping-like, slotted classes), and after every step of mutation histories on the same objects.",
+    "C05": "Yielded sequences of the five iterators compared with independently computed orders for every start node of all ordered trees up to 8 (thorough 11) nodes, random/deep shapes and mutation histories; grouped iterators also consumed as a stream.",
     "C06": "All five iterators under every (stop set, filter set, maxlevel) combination on all trees up to 5 (thorough 6) nodes compared with the restriction of the reference order; exhaustive in that scope, sampled beyond.",
     "C07": "Resolver.get results / exact error classes compared with a reference path interpreter for all short paths on all small trees and random hostile names, all-pairs round trips, long-lived resolvers under renames and moves.",
     "C08": "Resolver.glob results compared with a set-semantics reference incl. order/duplicate/strict/get-agreement clauses; cache transparency monitored by replaying queries inside different call histories; long-lived resolvers under renames and moves.",
@@ -23,12 +23,12 @@ LEVEL_TEXT = {
     "C12": "Emitted DOT lines parsed back with an independent unescaper and compared with the admitted sub-forest for every stop set x filter set x maxlevel on all trees up to 5 (thorough 6) nodes, hostile/colliding names, custom functions, predicates changing between iterations.",
     "C13": "Emitted Mermaid lines parsed back and compared with the admitted sub-forest for every stop set x filter set x maxlevel on all trees up to 5 (thorough 6) nodes; identifier stability across iterations and predicate changes.",
     "C14": "search / cachedsearch results and CountError (class and numbers) compared with the reference pre-order restriction for every bound pair around the match count on all trees up to 6 (thorough 7) nodes; cached vs uncached after every mutation.",
-    "C15": "Walker.walk triples compared with LCA path arithmetic for all ordered pairs on all trees up to 8 (thorough 9) nodes, cross-tree pairs, deep shapes, value-semantics classes and mutation histories.",
+    "C15": "Walker.walk triples compared with LCA path arithmetic for all ordered pairs on all trees up to 8 (thorough 10) nodes, cross-tree pairs, deep shapes (a 1 500-level chain), value-semantics classes and mutation histories.",
     "C16": "Online trace automaton over the hook log with whole-forest snapshots inside every hook (bracketing, observation semantics, exact log for successful calls, prefix log for single faults), same enumeration as C01.",
     "C17": "Special-method probes attributed to library frames (zero invocations allowed) and differential execution of the complete API battery + structural calls on plain vs adversarial classes over a trait matrix (quick: sampled, thorough: full).",
-    "C18": "Lock-step differential execution of identical call histories (faults included) on NodeMixin and LightNodeMixin universes, plus the complete read-only battery after static forests and histories.",
-    "C19": "Copies by pickle (all protocols) and deepcopy walked in parallel with the original to build a bijection; id-disjointness, forest invariant on the copy, two-sided independence under mutation; all trees up to 6 (thorough 7) nodes x entry node x class mixes.",
-    "C20": "History monitor with a shadow attribute store per final target and the structural reference model over link and target positions; 2 000 (thorough 40 000) interleaved histories plus directed constructor-keyword cases.",
+    "C18": "Lock-step differential execution of identical call histories (faults included) on NodeMixin and LightNodeMixin universes (plain, value-equality and always-falsy class pairs), plus the complete read-only battery after static forests and histories.",
+    "C19": "Copies by pickle (all protocols) and deepcopy walked in parallel with the original to build a bijection; id-disjointness, forest invariant on the copy, two-sided independence under mutation; all trees up to 6 (thorough 8) nodes x entry node x class mixes.",
+    "C20": "History monitor with a shadow attribute store per final target and the structural reference model over link and target positions; 2 000 (thorough 200 000) interleaved histories plus directed constructor-keyword cases.",
 }
 DESIGN_REF = {p: "DESIGN.md section 4, %s" % p for p in ["C%02d" % i for i in range(1, 21)]}
 
